@@ -322,6 +322,9 @@ func init() {
 		Run: func(c *Ctx) {
 			// the client side alone (handlers of two servers, periodic reporter, final report), 2 deviations
 			c05Reporting(c)
+			if c.Shard == 0 {
+				c05LargeValues(c) // counts >= 1e6, tiny and negative numbers through serialisation and merge
+			}
 			ps, d := c06ParamSets(c.Tier)
 			for i, p := range ps {
 				if c.Expired() {
